@@ -149,7 +149,11 @@ func (v *Vue) evaluateNodeAsElement(ctx VueContext, node *html.Node, depth int) 
 
 	// Handle v-for if present
 	if vFor := helpers.GetAttr(node, "v-for"); vFor != "" {
-		loopNodes, err := v.evalFor(ctx, node, vFor, depth+1)
+		// The branch has been chosen: its chain directives must not be seen again
+		// when each iteration is evaluated, or it would be dropped as an orphan.
+		branch := *node
+		branch.Attr = helpers.FilterAttrs(helpers.FilterAttrs(node.Attr, "v-else-if"), "v-else")
+		loopNodes, err := v.evalFor(ctx, &branch, vFor, depth+1)
 		if err != nil {
 			return nil, err
 		}
